@@ -107,6 +107,13 @@ def wl_roundtrip(ctx, idx, rng):
         rate, fc, bw = band_for(rng, clsname, nchan)
         kw = dict(rate=rate, fc=fc, chan_bw=bw, nchan=nchan, align=align)
     sig, desc = gen.make_signal(rng, clsname, n, dask=use_dask, start=gen.rand_time(rng, p_none=0.2), **kw)
+    if n > 64 and n / float(sig.sample_rate.to_value(u.Hz)) >= 1e4:
+        # a span of hours to days: float64 seconds round at the level of Time's own closeness tolerance (tens of ps), so whether a
+        # contiguous sequence is accepted is decided by rounding (same limit as in the "deep_shift" rejection workload): keep it short
+        with probes.quiet():
+            sig = sig[:64]
+        n = 64
+        desc["shape"][0] = 64
     o = "roundtrip"
     if axis_kind == 2 and clsname != "Signal":
         cuts = [int(c) for c in rng.integers(0, nchan + 1, size=int(rng.integers(1, 4)))]
